@@ -57,6 +57,10 @@ type MCConfig struct {
 	Chunk        int
 	ExtraInputs  func(g *gast.Grammar, r *rand.Rand) [][]byte
 	KeepGrammar  func(g *gast.Grammar) bool
+	// StalePS: pigeon leaves c.pos / c.text stale in predicate and state blocks (known finding
+	// F02). When set, the offset / position / text fields of P and S events are masked on both
+	// sides before traces are compared, and every event where they differ is counted under F02.
+	StalePS string
 }
 
 type mcCase struct {
@@ -210,6 +214,14 @@ func (c *Ctx) mcChunk(cfg *MCConfig, gs []*gast.Grammar, base int, rng *rand.Ran
 		c.CovAdd("events_compared", len(m.Trace))
 		c.CovSet("flag_sets", cs.u.FlagID+"|")
 		c.CovSet("option_sets", cs.os.Name)
+		if cfg.StalePS != "" && cfg.Compare&CmpTrace != 0 {
+			if n := maskPS(m.Trace, r.Trace); n > 0 && c.Prop == "C02" {
+				c.Report(&Violation{Class: c.Prop + "/stale-ps", Sig: []string{cfg.StalePS},
+					Summary: fmt.Sprintf("predicate/state block saw a stale position or text on grammar %q input %q", gast.Short(cs.u.G), cs.in),
+					Grammar: cs.u.Text, Flags: cs.u.Flags, Input: cs.in, Case: cs.c})
+				c.CovAdd("stale_pred_state_events", n)
+			}
+		}
 		diffs := compareModel(cfg.Compare, cs, r, m)
 		if r.Dbg != nil {
 			c.CovAdd("debug_trace_lines_checked", r.Dbg.Lines)
@@ -236,6 +248,7 @@ func (c *Ctx) mcChunk(cfg *MCConfig, gs []*gast.Grammar, base int, rng *rand.Ran
 }
 
 func shortFail(s string) string {
+	s = pkgRe.ReplaceAllString(s, "pN")
 	if len(s) > 120 {
 		s = s[:120]
 	}
@@ -539,4 +552,37 @@ func keysOf(m map[int]bool) []int {
 	}
 	sort.Ints(out)
 	return out
+}
+
+// maskPS blanks offset, position and text of P and S events in both traces (in place) and returns
+// how many real events had values different from the model's.
+func maskPS(want, got []string) int {
+	n := 0
+	fields := func(ev string) []string { return strings.SplitN(ev, "|", 6) }
+	for i := range got {
+		if len(got[i]) == 0 || (got[i][0] != 'P' && got[i][0] != 'S') {
+			continue
+		}
+		g := fields(got[i])
+		if len(g) < 6 {
+			continue
+		}
+		if i < len(want) {
+			w := fields(want[i])
+			if len(w) == 6 && w[0] == g[0] && w[1] == g[1] && (w[2] != g[2] || w[3] != g[3] || w[4] != g[4]) {
+				n++
+			}
+		}
+		got[i] = g[0] + "|" + g[1] + "|~|~|~|" + g[5]
+	}
+	for i := range want {
+		if len(want[i]) == 0 || (want[i][0] != 'P' && want[i][0] != 'S') {
+			continue
+		}
+		w := fields(want[i])
+		if len(w) == 6 {
+			want[i] = w[0] + "|" + w[1] + "|~|~|~|" + w[5]
+		}
+	}
+	return n
 }
